@@ -1,5 +1,6 @@
 import ConjureVerif.Model.Wire
 import ConjureVerif.Lemmas.WireIdem
+import ConjureVerif.Lemmas.Base64Canon
 import ConjureVerif.Gen.CodegenObjectsSrc
 import ConjureVerif.Gen.CodegenContextSrc
 import ConjureVerif.Gen.CodegenUnionsSrc
@@ -52,6 +53,20 @@ theorem C02_integer_range (n : Int) : primOk .integer (.int n) = true ↔ -21474
 theorem C02_safelong_range (n : Int) :
     primOk .safelong (.int n) = true ↔ -9007199254740991 ≤ n ∧ n ≤ 9007199254740991 := by
   simp [primOk, safeInt]
+
+/-- a binary field accepts exactly the canonical padded Base64 strings: `s` is accepted iff it is the text the
+    encoder writes for some byte string (so wrong padding, a foreign alphabet or non-zero trailing bits reject) -/
+theorem C02_binary_accepts_exactly_canonical (s : List Nat) :
+    primOk .binary (.str s) = true ↔ ∃ bs : List Nat, (∀ b ∈ bs, b < 256) ∧ Base64.encode bs = s := by
+  simp only [primOk, Option.isSome_iff_exists]
+  constructor
+  · rintro ⟨bs, h⟩
+    exact ⟨bs, (Base64.encode_decode s bs h).2, (Base64.encode_decode s bs h).1⟩
+  · rintro ⟨bs, hb, rfl⟩
+    exact ⟨bs, Base64.decode_encode bs hb⟩
+
+example : primOk .binary (.str [65, 81, 73, 61]) = true ∧ primOk .binary (.str [65, 81, 74, 61]) = false ∧
+    primOk .binary (.str [65, 81, 73]) = false := by decide
 
 /-- a different JSON kind where a primitive is required is rejected -/
 theorem C02_prim_wrong_kind :
